@@ -1,6 +1,7 @@
 import PdshVerif.Base.Hex
 import PdshVerif.Mod.Load
 import PdshVerif.Mod.LoadTie
+import PdshVerif.Mod.Now
 import PdshVerif.Mod.Spec
 import Driver.Util
 
@@ -10,14 +11,21 @@ import Driver.Util
   one case per line, `key=value` tokens:
     pers=1|2 uid=N euid=N owner=N|~ misc=HEX|~ env=DIR|~ builtin=DIR use=CODE,CODE,...
     DIR   := PATH@FILES        PATH := STAT,STAT,...  (dir, dir/.., ..., "/")      STAT := uid:mode | !
-    FILES := FILE;FILE;...     FILE := NAMEHEX,STAT,OBJ
+    FILES := FILE;FILE;...     FILE := NAMEHEX,STAT,OBJ[,OID]   OID: which object the name denotes (two names may
+                                       share one); without it every name is an object of its own
     OBJ   := x (dlopen fails) | n (no pdsh_module_info) | m/TYPE/NAME/PRIO/PERS/INIT/OPTS
              TYPE,NAME := HEX | ~ (NULL)   INIT := ~ | 0 (fails) | 1   OPTS := ~ (NULL) | e (empty) | ROW+ROW..
              ROW := CODE.HASARG.PERS
-  `pdshmodel mod model [persfirst] [tiefix]`:  (tiefix = the proposed repair of F17-TIE, Mod/LoadTie.lean)
-    (persfirst = the repaired form of F17-PERS: _mod_register looks at the
-       personality BEFORE it touches an existing module of the same type and name; for the model this is the
-       same as an object without type, so the driver rewrites such descriptors and runs the same model)
+  `pdshmodel mod model [nopers] [notie] [wrapprio] [nosameobj] [rename]`:
+    without a switch: THE CODE AS IT IS NOW, `Mod.Now.loadAll` (the definition the theorems of Props/C17.lean are about).
+    Each switch selects an older form of one function (the check probes the binary and passes the switches that fit,
+    so that a revert of a repair is reported with a replay and not as a broken correspondence):
+      nopers     _mod_register before 59829e8 (personality tested after the eviction; F17-PERS)
+      notie      _cmp_f / _mod_register before c80ee4f (no tie-break by type / file name; F17-TIE)
+      wrapprio   _cmp_f before 930abcb (32-bit subtraction, `PrioWrap.cmpFWrap`; F17-PRIO-OVERFLOW)
+      nosameobj  _mod_load_dynamic before fde0027 (a second name of a registered object is registered again; the
+                 real code then crashes, F17-SAMEOBJ -- the check does not compare such cases)
+      rename     findings/C17-sameobj-tie.patch applied (`Mod.Now.loadAllRename`; F17-SAMEOBJ-TIE)
        ok|fatal L=FILE:ACT,... C=FILE,... O=HEX D=FILE,... U=CODE:i|n|hFILE.ARG,...
   `pdshmodel mod spec` :  the case line additionally carries the observation
        obs=ok|fatal oL=FILE:ACT,... oC=FILE,... oD=FILE,... oU=CODE:i|n|hFILE.ARG,...
@@ -70,22 +78,36 @@ def parseObj (s : String) : Option Obj :=
       pure (.mod ⟨t, n, prio, pers, opts, ini⟩)
     | _ => none
 
-def parseFile (s : String) : Option File :=
+def parseFile (s : String) : Option (File × Option Nat) :=
   match s.splitOn "," with
   | [nm, st, obj] => do
     let nm ← Hex.decodeToChars nm
     let st ← parseStat st
     let obj ← parseObj obj
-    pure ⟨nm, st, obj⟩
+    pure (⟨nm, st, obj⟩, none)
+  | [nm, st, obj, oid] => do
+    let nm ← Hex.decodeToChars nm
+    let st ← parseStat st
+    let obj ← parseObj obj
+    let oid ← oid.toNat?
+    pure (⟨nm, st, obj⟩, some oid)
   | _ => none
 
-def parseDir (s : String) : Option Dir :=
+/-- the directory and the object each of its names denotes -/
+def parseDir (s : String) : Option (Dir × List (List Char × Nat)) :=
   match s.splitOn "@" with
   | [p, f] => do
     let p ← (splitNE p ",").mapM parseStat
     let f ← (splitNE f ";").mapM parseFile
-    pure ⟨p, f⟩
+    pure (⟨p, f.map (·.1)⟩, f.filterMap fun (x, o) => o.map fun o => (x.fname, o))
   | _ => none
+
+/-- name → object: the given identities; a name without one is an object of its own (numbered from 2^40 by the first
+    position of the name in the two directories) -/
+def oidOf (given : List (List Char × Nat)) (names : List (List Char)) (nm : List Char) : Nat :=
+  match given.lookup nm with
+  | some o => o
+  | none => 1099511627776 + names.idxOf nm
 
 def parseFiles (s : String) : Option (List (List Char)) := (splitNE s ",").mapM Hex.decodeToChars
 
@@ -114,9 +136,13 @@ structure Case where
   env : Env
   use : List Char
   obs : Spec.Obs
+  oids : List (List Char × Nat) := []
 
 def emptyCase : Case :=
-  ⟨⟨0, 0, none, ⟨[], []⟩, none, 1, none⟩, [], ⟨false, [], [], [], []⟩⟩
+  ⟨⟨0, 0, none, ⟨[], []⟩, none, 1, none⟩, [], ⟨false, [], [], [], []⟩, []⟩
+
+def Case.oid (c : Case) : List Char → Nat :=
+  oidOf c.oids (((c.env.envDir.map (·.files)).getD [] ++ c.env.builtin.files).map (·.fname))
 
 def kv (tok : String) : Option (String × String) :=
   match tok.splitOn "=" with
@@ -137,8 +163,9 @@ def parseCase : List String → Case → Option Case
        else if k = "misc" then (parseOptStr v).map fun m => { c with env := { c.env with misc := m } }
        else if k = "env" then
          (if v = "~" then some { c with env := { c.env with envDir := none } }
-          else (parseDir v).map fun d => { c with env := { c.env with envDir := some d } })
-       else if k = "builtin" then (parseDir v).map fun d => { c with env := { c.env with builtin := d } }
+          else (parseDir v).map fun (d, o) => { c with env := { c.env with envDir := some d }, oids := c.oids ++ o })
+       else if k = "builtin" then
+         (parseDir v).map fun (d, o) => { c with env := { c.env with builtin := d }, oids := c.oids ++ o }
        else if k = "use" then
          ((splitNE v ",").mapM String.toNat?).map fun l => { c with use := l.map Char.ofNat }
        else if k = "obs" then some { c with obs := { c.obs with fatal := v = "fatal" } }
@@ -156,13 +183,29 @@ def showUse (c : Char) (u : OptUse) : String :=
     | .nohandler => "n"
     | .handled f a => "h" ++ hx f ++ "." ++ (if a then "1" else "0")
 
-def stepModel (persFirst tieFix : Bool) (line : String) : String :=
+structure Variant where
+  noPers : Bool
+  noTie : Bool
+  wrapPrio : Bool
+  noSameObj : Bool
+  rename : Bool
+
+def Variant.isNow (v : Variant) : Bool := !v.noPers && !v.noTie && !v.wrapPrio && !v.noSameObj
+
+def runVariant (v : Variant) (oid : List Char → Nat) (e : Env) : Result :=
+  if v.isNow then (if v.rename then Now.loadAllRename oid e else Now.loadAll oid e)
+  else
+    let env := if v.noPers then e else persFirstEnv e
+    let beats := if v.noTie then beatsPrio else Tie.beats
+    let cmp := if v.noTie then cmpF else if v.wrapPrio then PrioWrap.cmpFWrap else Now.cmpF
+    if v.noSameObj then loadDirG beats cmp env (chooseDir env)
+    else Now.loadDirG v.rename oid beats cmp env (chooseDir env)
+
+def stepModel (v : Variant) (line : String) : String :=
   match parseCase (Driver.words line) emptyCase with
   | none => "bad-op"
   | some c =>
-    let env := if persFirst then persFirstEnv c.env else c.env
-    -- tiefix = the proposed repair of F17-TIE (findings/C17.patch), Mod/LoadTie.lean
-    let r := if tieFix then Tie.loadAll env else loadAll env
+    let r := runVariant v c.oid c.env
     (if r.fatal then "fatal" else "ok") ++
       " L=" ++ ",".intercalate (r.mods.map fun m => hx m.file ++ ":" ++ (if m.active then "1" else "0")) ++
       " C=" ++ ",".intercalate (r.calls.map hx) ++
@@ -198,11 +241,13 @@ def main (args : List String) : IO UInt32 := do
   let stdin ← IO.getStdin
   match args with
   | "model" :: vs =>
-    if vs.all (fun v => v = "persfirst" || v = "tiefix") then
-      Driver.forLines stdin () (fun _ l => ((), stepModel (vs.contains "persfirst") (vs.contains "tiefix") l))
+    if vs.all (fun v => ["nopers", "notie", "wrapprio", "nosameobj", "rename"].contains v) then
+      let v : Variant := ⟨vs.contains "nopers", vs.contains "notie", vs.contains "wrapprio", vs.contains "nosameobj",
+                          vs.contains "rename"⟩
+      Driver.forLines stdin () (fun _ l => ((), stepModel v l))
       return 0
     else
-      IO.eprintln "usage: pdshmodel mod model [persfirst] [tiefix]"; return 2
+      IO.eprintln "usage: pdshmodel mod model [nopers] [notie] [wrapprio] [nosameobj] [rename]"; return 2
   | ["spec"] => Driver.forLines stdin () (fun _ l => ((), stepSpec l)); return 0
   | _ => IO.eprintln "usage: pdshmodel mod model|spec"; return 2
 
